@@ -8,6 +8,7 @@ from /repo's current working tree.  Exit 0: held on everything explored; 1: VIOL
 import json, os, sys, time, traceback
 sys.path.insert(0, os.path.dirname(os.path.abspath(__file__)))
 from vlib import *
+from vlib import run_apalache
 
 MCW = 8          # TLC workers for model checking (leave cores for cargo / other checks)
 
@@ -84,12 +85,16 @@ def c04(tier, seed):
 
 def c05(tier, seed):
     c = Check("C05", tier, seed)
-    c.rule = "MC: should_notify as coded vs vring_need_event for every (avail_idx, avail_event, last-checked) modulo 8, both flag values; negative configuration (non-wrap-aware compare) must yield a counterexample; traces: should_notify / set_dev_notify / used_event observed in random histories"
+    c.rule = "MC: should_notify as coded vs vring_need_event for every (avail_idx, avail_event, last-checked) modulo 8, both flag values; negative configuration (non-wrap-aware compare) must yield a counterexample; Apalache (SMT): the same implication for all 16-bit index triples with batches <= 32768 (NotifyLemma.tla), the pre-fix comparison refuted; traces: should_notify / set_dev_notify / used_event observed in random histories"
     c.assumptions = VQ_ASSUME
     if tier == "thorough":
         mc(c, ["VQ_n2_notify_flag", "VQ_n2_notify_ev4", "VQ_n2_notify_ev"], tier, negative=["VQ_bug_naive_event_compare", "VQ_bug_no_rearm"])
     else:
         mc(c, ["VQ_n2_notify_flag", "VQ_n2_notify_ev4"], tier, negative=["VQ_bug_naive_event_compare4", "VQ_bug_no_rearm"])
+    # the same implication for the real 16-bit index width, symbolically (Apalache / SMT):
+    # for all old, new, event in 0..65535 with at most 32768 submissions between two checks
+    c.add_mc(run_apalache("NotifyLemma", "Lemma"))
+    c.add_mc(run_apalache("NotifyLemma", "LemmaBefore"), expect_violation=True)
     vq_family(c, tier, seed + 404, ["notify", "random"])
     return c.finish()
 
@@ -201,10 +206,21 @@ def c08(tier, seed):
 
 def c09(tier, seed):
     c = Check("C09", tier, seed, level="model_checking")
-    c.rule = "MC: generic driver, 2-3 queues, legacy/modern, every k for the failing allocation, teardown orders (negative: freeing queue memory without unset and before the transport reset); traces (fault enumeration): every driver x layout x k-th allocation failing (k=1..9) x config-space faults, then drop; DMA ledger, queue_unset/reset order and frees of still-shared heap memory validated against Lifecycle.tla"
-    c.assumptions = ["allocator interposition reports frees of memory still shared with a queue", "drop at arbitrary points of a usage history is covered by the device families (C14-C20) which end every scenario with drop"]
+    c.rule = "MC: generic driver, 2-3 queues, legacy/modern, every k for the failing allocation, teardown orders (negative: freeing queue memory without unset and before the transport reset); traces (fault enumeration): every driver x layout x k-th allocation failing (k=1..9) x config-space faults, then drop; DMA ledger, queue_unset/reset order and frees of still-shared heap memory validated against Lifecycle.tla; usage: every driver's usage scenarios on all transports reduced to calls / DMA ledger / heap frees of shared memory and validated against Adv.tla (no buffer posted to a live queue is released while the driver is in use)"
+    c.assumptions = ["allocator interposition reports frees of memory still shared with a queue", "use.* traces: the usage scenarios of the device families (C14-C20) with a standard-following device, every scenario ending with drop"]
     mc(c, ["Life_q3_modern", "Life_q2_legacy", "Life_ok_no_unset", "Life_ok_queues_first"], tier, module="LifecycleMC", negative=["Life_bug_live_free"])
     life_family(c, tier, seed + 7, "none")
+    # while a driver is in use: every driver's usage scenarios (device families of C14-C20,
+    # standard-following device) reduced to calls / DMA ledger / heap frees of memory still shared
+    # with the device, validated against Adv.tla - nothing posted to a live queue is released
+    out = os.path.join(WORK, c.pid, "use.ndjson")
+    idx = run_harness("adv", out, seed + 11, tier, ["plain"])
+    v = validate_traces("AdvTrace", "AdvTrace.cfg", out, idx, max_events=2000)
+    c.add_validation(v, "use")
+    if not c.violations:
+        for f in (out, out + ".q.ndjson"):
+            if os.path.exists(f):
+                os.remove(f)
     return c.finish()
 
 
@@ -359,10 +375,14 @@ def c16(tier, seed):
 
 def c17(tier, seed):
     c = Check("C17", tier, seed)
-    c.rule = "MC (VsockCreditMC): the transmit credit window with real 32-bit free-running counters (two 16-bit limbs) started 3 below the wrap, peer buffer 3 bytes, peer consuming and reporting at arbitrary instants, sends of 0..4 bytes: in-flight never exceeds the peer's space, at most one credit request per refusal episode; negative configuration (non-modular compare) overruns; traces: (a) connection-manager histories with random packetisation / read sizes, capacities 1,7,512,1024,65536, credit exhaustion, ring wrap-around, every packet's addressing/len/type/buf_alloc/fwd_cnt checked, bytes read compared run by run with bytes sent; (b) real-width wrap: 4.8 GB sent and 4.3 GB received+read on one connection so tx_cnt and fwd_cnt pass 2^32, counters checked on the wire with limb arithmetic"
+    c.rule = "MC (VsockCreditMC): the transmit credit window with real 32-bit free-running counters (two 16-bit limbs) started 3 below the wrap, peer buffer 3 bytes, peer consuming and reporting at arbitrary instants, sends of 0..4 bytes: in-flight never exceeds the peer's space, at most one credit request per refusal episode; negative configuration (non-modular compare) overruns; Apalache (SMT): peer_free as coded = true free space for all 32-bit counter values after up to 2^18 wraps (CreditLemma.tla); traces: (a) connection-manager histories with random packetisation / read sizes, capacities 1,7,512,1024,65536, credit exhaustion, ring wrap-around, every packet's addressing/len/type/buf_alloc/fwd_cnt checked, bytes read compared run by run with bytes sent; (b) real-width wrap: 4.8 GB sent and 4.3 GB received+read on one connection so tx_cnt and fwd_cnt pass 2^32, counters checked on the wire with limb arithmetic"
     c.assumptions = ["the scripted peer honours the credit the driver advertises (fills in its credit fields at delivery time)", "peer byte streams are affine (+7 mod 256) so runs can be compared without logging payloads"]
     c.add_mc(run_tlc_mc("VsockCreditMC", "VsockCredit_ok.cfg", workers=4, timeout=600))
     c.add_mc(run_tlc_mc("VsockCreditMC", "VsockCredit_bug_nowrap.cfg", workers=4, timeout=600), expect_violation=True)
+    # peer_free as coded equals the true free space for counters that wrapped any number of times
+    # (up to 2^50 bytes), symbolically (Apalache / SMT); the pre-fix checked arithmetic refuted
+    c.add_mc(run_apalache("CreditLemma", "Lemma"))
+    c.add_mc(run_apalache("CreditLemma", "LemmaBefore"), expect_violation=True)
     device_family(c, "vsock", "VsockTrace", "VsockTrace.cfg", seed, tier, max_events=700)
     device_family(c, "vsock", "VsockTrace", "VsockTrace.cfg", seed, tier, max_events=10**6, extra=["wrap"], queues=False)
     return c.finish()
